@@ -1,7 +1,7 @@
 /-
 C11 — only configurable parameters of registered configurables can ever be bound.
 -/
-import Gin.State
+import Gin.Machine
 import Gin.Lemmas.Call
 
 namespace Gin.C11
